@@ -186,5 +186,26 @@ def check_case(case, rec):
             rec.fail('numbering-invariance', f'{ms!r} {params}: linear_hash_smiles fragment strings change under renumbering',
                      sig='linear-values')
             return
+        rm = r.morgan_hash_smiles(lo, hi)
+        unlabelled = not any(a.stereo is not None for _, a in m.atoms()) and not any(b.stereo is not None for *_, b in m.bonds()) \
+            and not any(a.charge or a.is_radical for _, a in m.atoms()) and not any(b.order == 4 for *_, b in m.bonds())
+        # environment strings are canonical SMILES of substructures; with stereo labels a cut-out environment may or may not keep a
+        # label depending on what was cut, so only label-free, uncharged, non-aromatic molecules are compared (resonance-equivalent atoms are distinct in a cut-out fragment)
+        if unlabelled and {k: sorted(v) for k, v in mhs.items()} != {k: sorted(v) for k, v in rm.items()}:
+            from ..oracles import wl
+            try:
+                col, adj = wl.constitution(m)
+                gap = bool(wl.local_swap_ok(col, adj)) or wl.gap_b(m, wl.orbits(col, adj))
+            except TimeoutError:
+                gap = True
+            if gap or any(b.order == 8 for *_, b in m.bonds()):
+                rec.count('morgan environment strings differ inside a C01 gap / known finding (canonical strings of fragments: not asserted)')
+                gap = True
+        else:
+            gap = True
+        if not gap:
+            rec.fail('numbering-invariance', f'{ms!r} radius {lo}-{hi}: morgan_hash_smiles environment strings change under renumbering',
+                     sig='morgan-values')
+            return
         rec.count('fragment-strings-compared')
     rec.sample('params', dict(molecule=ms, params=params, linear=len(lin), morgan=len(mor)), cap=5)
